@@ -253,6 +253,22 @@ func RunSync(w *tr.Writer, st *SyncStats, tid int, plan SyncPlan, rnd *rand.Rand
 		}
 		rt := util.NewMerklePatriciaTrie(partial, util.Sequence(rv), root, NewTxnCache())
 		ev := map[string]any{"tid": tid, "op": "repair", "ver": rv, "samever": rv == curVer && len(vers) == 1}
+		// on two of three plans the repairing trie object has looked for its missing nodes before (detection, a failing
+		// lookup): it then carries its own record of missing keys into the merge
+		warmed := tid%3 != 0
+		if warmed {
+			Guard(func() string {
+				_, _ = rt.HasMissingNodes(context.Background())
+				if tid%3 == 1 {
+					_, _ = rt.GetAllMissingNodes()
+				}
+				for _, it := range items {
+					_, _ = rt.GetNodeValueRaw(util.Path(it.Path))
+				}
+				return "ok"
+			})
+		}
+		ev["warmed"] = warmed
 		ev["res"] = Guard(func() string {
 			if err := rt.MergeDB(donor, root, nil); err != nil {
 				return "err"
@@ -293,6 +309,20 @@ func RunSync(w *tr.Writer, st *SyncStats, tid int, plan SyncPlan, rnd *rand.Rand
 		ev["donorOK"] = donorOK
 		sw := SweepDB(partial, rv)
 		ev["keysOK"] = sw.KeysOK
+		// the repaired trie persists what it merged in (nodes that keep the origin they were created with): every node
+		// must arrive in the target store under the hash of its own content (C14)
+		savedOK := true
+		Guard(func() string {
+			target := util.NewMemoryNodeDB()
+			if err := rt.SaveChanges(context.Background(), target, false); err != nil {
+				savedOK = false
+				return "err"
+			}
+			ts := SweepDB(target, rv)
+			savedOK = ts.KeysOK && ts.RtOK
+			return "ok"
+		})
+		ev["savedOK"] = savedOK
 		w.Emit(ev)
 		st.Events++
 	}
